@@ -552,7 +552,7 @@ fn segment_menu() -> Vec<&'static str> {
         "2147483647", "2147483648", "4294967295", "9223372036854775807", "9223372036854775808", "-9223372036854775808", "18446744073709551615",
         "9223372036854776", "-9223372036854776", "9223372036855", "18446744073709552", "253402300800", "-62135596801",
         // existing objects in unusual states: a child without a certificate
-        "nocert", ";", "*", "%5C", "a%0Ab", "%E2%80%AE", "ca%00", "CA", "ca.", "ca%20",
+        "nocert", "gkid", "skid", ";", "*", "%5C", "a%0Ab", "%E2%80%AE", "ca%00", "CA", "ca.", "ca%20",
         "aaaaaaaaaaaaaaaaaaaaaaaaaaaaaaaaaaaaaaaaaaaaaaaaaaaaaaaaaaaaaaaaaaaaaaaaaaaaaaaaaaaaaaaaaaaaaaaaaaaaaaaaaaaaaaaaaaaaaaaaaaaaaaaaaaaaaaaaaaaaaaaaaaaaaaaaaaaaaaaaaaaaaaaaaaaaaaaaaaaaaaaaaaaaaaaaaaaaaaaaaaaaaaaaaaaaaaaaaaaaaaaaaaaaaaaaaaaaaaaaaaaaaaaaaaaaaaaaaaaaaaaaaaaaaaaaaaaaaaaaaaaaaaaaaaaaaaaaaaaaaaaaaaaaaaaaaaaaaaaaaaaaaa",
     ]
 }
@@ -582,6 +582,20 @@ fn build_api_fixture() -> Result<BTreeMap<String, Value>, String> {
     let signer = crate::cms::PoolSigner::new();
     let k = signer.new_key();
     let id = signer.id_cert(k);
+    // children of "ca" in other states: one that holds a certificate, one
+    // that holds a certificate and is suspended
+    for (name, r) in [("gkid", res("AS65006", "10.0.6.0/24", "")), ("skid", res("AS65007", "10.0.7.0/24", ""))] {
+        w.add_ca(name).map_err(|e| format!("fixture child {name}: {e}"))?;
+        w.add_child_link("ca", name, r).map_err(|e| format!("fixture child {name}: {e}"))?;
+        w.pump()?;
+    }
+    w.settle()?;
+    {
+        let o = w.apply_pumped(&Op::Suspend { parent: "ca".into(), child: "skid".into() });
+        if !o.ok {
+            return Err(format!("fixture: suspend skid: {:?}", o.err));
+        }
+    }
     // a child of "ca" that has not asked for a certificate yet
     {
         let k2 = signer.new_key();
